@@ -7,7 +7,7 @@ Kinds == {"UD", "ED", "OTHER"}
 Creators == {"bmc", "fixture", "plain"}     \* 'O' | a creator with fixture parser modules | one without
 Comps == {"builtin", "served", "unserved"}  \* 0x2000 | a component a parser module serves | any other
 Subs == {1, 2, 3, 4, 85}
-Behs == {"absent", "ok", "nondict", "none", "raise", "raise_empty", "importerror"}
+Behs == {"absent", "ok", "nondict", "none", "raise", "raise_empty", "importerror", "importfails"}
 Routes == {[kind |-> k, creator |-> c, comp |-> m, sub |-> s, plugins |-> p, beh |-> b] :
               k \in Kinds, c \in Creators, m \in Comps, s \in Subs, p \in BOOLEAN, b \in Behs}
 \* behaviours make sense only where a parser module can be consulted
